@@ -2,10 +2,13 @@ package c11
 
 import (
 	"fmt"
+	"runtime"
 	"sort"
 	"strings"
 	"sync"
+	"sync/atomic"
 	"testing"
+	"time"
 
 	"github.com/AliceO2Group/Control/common/event"
 	"github.com/AliceO2Group/Control/common/gera"
@@ -39,6 +42,7 @@ type Case struct {
 	Updates    []Update
 	Concurrent bool  // one goroutine per leaf, each leaf's own updates stay ordered
 	Perm       []int // permutation seed for the metamorphic variant (children order / arrival order)
+	Yields     []int // concurrent mode: what the k-th request for the environment id does (0 = yield the processor, n = sleep n x 20 us)
 }
 
 func (n *Node) yaml(b *strings.Builder, indent string, root bool) {
@@ -96,12 +100,30 @@ type built struct {
 	adapter chan sm.State
 }
 
-func build(tree *Node) (*built, error) {
+func build(tree *Node) (*built, error) { return buildYielding(tree, nil) }
+
+// buildYielding: the environment-side callbacks of the role tree are the harness's. Every update asks for the environment id in its
+// prologue (between reading the child's value and merging it into the parent); with a yield pattern that callback gives the
+// processor away or sleeps a few tens of microseconds, which widens exactly the window in which concurrent updates overtake
+// each other. The pattern is part of the case (drawn by rapid), not a random source of its own.
+func buildYielding(tree *Node, yields []int) (*built, error) {
 	var sb strings.Builder
 	tree.yaml(&sb, "", true)
 	envId := uid.New()
 	empty := func() gera.Map[string, string] { return gera.MakeMap[string, string]() }
-	pa := workflow.NewParentAdapter(func() uid.ID { return envId }, func() uint32 { return 0 }, empty, empty, empty, func(event.Event) {})
+	var calls int64
+	getId := func() uid.ID {
+		if len(yields) > 0 {
+			k := atomic.AddInt64(&calls, 1)
+			if y := yields[int(k)%len(yields)]; y > 0 {
+				time.Sleep(time.Duration(y) * 20 * time.Microsecond)
+			} else {
+				runtime.Gosched()
+			}
+		}
+		return envId
+	}
+	pa := workflow.NewParentAdapter(getId, func() uint32 { return 0 }, empty, empty, empty, func(event.Event) {})
 	ch := make(chan sm.State, 100000)
 	pa.SubscribeToStateChange("verif", ch)
 	root, err := workflow.VerifUnmarshalWorkflow([]byte(sb.String()), pa)
@@ -267,7 +289,11 @@ func permuteTree(n *Node, perm []int, k *int) *Node {
 }
 
 func run(c Case) (res vh.Result) {
-	b, err := build(c.Tree)
+	var yields []int
+	if c.Concurrent {
+		yields = c.Yields
+	}
+	b, err := buildYielding(c.Tree, yields)
 	if err != nil {
 		res.Inconclusive = "build: " + err.Error()
 		return
@@ -538,6 +564,9 @@ func gen(t *rapid.T) Case {
 		c.Updates = append(c.Updates, u)
 	}
 	c.Perm = rapid.SliceOfN(rapid.IntRange(0, 97), 1, 8).Draw(t, "perm")
+	if c.Concurrent && rapid.Bool().Draw(t, "yielding") {
+		c.Yields = rapid.SliceOfN(rapid.IntRange(0, 4), 1, 7).Draw(t, "yields")
+	}
 	return c
 }
 
